@@ -3,7 +3,7 @@ import random, json, copy, sys, io
 from xml.etree import ElementTree as ET
 import fences_env
 from common import Check, run_driver
-import xsds as X, graphs
+import xsds as X, regexes as R, graphs
 
 fences_env.load()
 import xmlschema  # noqa: E402
@@ -43,6 +43,97 @@ def generate(text, mode, rng):
     except Exception as e:  # noqa
         return out, graphs.err_str(e), forced.draws
     return out, None, forced.draws
+
+
+# ---------------------------------------------------------------------------------------------
+# correspondence with the Coq model (coq/Xml.v): the schema as an element tree, the numbers the implementation drew
+def xml_tokens(el):
+    tag = el.tag.rpartition("}")[2]
+    toks = [R.tok(tag), str(len(el.attrib))]
+    for k, v in el.attrib.items():
+        toks += [R.tok(k), R.tok(v)]
+    kids = list(el)
+    toks.append(str(len(kids)))
+    for c in kids:
+        toks += xml_tokens(c)
+    return toks
+
+
+def xml_payload(n):
+    from fences.xml_schema import parse as XP
+    if isinstance(n, XP.StartNode):
+        return "S"
+    if isinstance(n, XP.FetchOutput):
+        return "F" + (R.tok(n.namespace) if n.namespace else "-")
+    if isinstance(n, XP.StartAttribute):
+        return "A" + R.tok(n.attr)
+    if isinstance(n, XP.StartNewElement):
+        return "E" + R.tok(n.tag)
+    if isinstance(n, XP.SetValueLeaf):
+        return "=" + R.tok(n.value)
+    return "-"
+
+
+def doc_tokens(el):
+    toks = [R.tok(el.tag), str(len(el.attrib))]
+    for k, v in el.attrib.items():
+        toks += [R.tok(k), R.tok(v)]
+    toks.append("T" + R.tok(el.text) if el.text is not None else "-")
+    kids = list(el)
+    toks.append(str(len(kids)))
+    for c in kids:
+        toks += doc_tokens(c)
+    return toks
+
+
+def observe_xsd(text, mode, rng):
+    """(what the implementation does, the numbers it drew)"""
+    import random as pyrandom
+    from fences import parse_xml_schema
+    forced = ForcedRandint(mode, rng)
+    old = pyrandom.randint
+    pyrandom.randint = forced
+    try:
+        g = parse_xml_schema(ET.fromstring(text))
+    except Exception as e:  # noqa
+        return "parse=" + graphs.err_str(e), [v for _, _, v in forced.draws]
+    finally:
+        pyrandom.randint = old
+    dump, num = R.dump_canon(g, xml_payload)
+    entries, status = [], "ok:"
+    try:
+        for e in g.generate_paths():
+            entries.append(e)
+    except Exception as ex:  # noqa
+        status = graphs.err_str(ex)
+    out = "graph=" + dump + "|entries=" + ";".join("%d/%s/%d" % (num.get(id(e.target), -1), graphs.ints(e.path), int(e.is_valid)) for e in entries) + "|status=" + status
+    samples = []
+    for e in entries:
+        try:
+            samples.append("ok:" + " ".join(doc_tokens(g.execute(e.path).getroot())))
+        except Exception as ex:  # noqa
+            samples.append(graphs.err_str(ex))
+    return out + "|samples=" + ";".join(samples), [v for _, _, v in forced.draws]
+
+
+def correspondence(ck, texts, rng, hist):
+    lines, impls = [], []
+    for text in texts:
+        mode = rng.choice(["lo", "hi", "rnd"])
+        impl, draws = observe_xsd(text, mode, rng)
+        toks = ["X", "1", "1", "1", "600", str(len(draws))] + [str(v) for v in draws] + xml_tokens(ET.fromstring(text))
+        lines.append(" ".join(toks))
+        impls.append(impl)
+    model = run_driver(lines) if lines else []
+    for text, impl, m in zip(texts, impls, model):
+        ck.cov["traces_validated_against_impl"] += 1
+        hist["model_runs"] = hist.get("model_runs", 0) + 1
+        hist["library_exception"] = hist.get("library_exception", 0) + impl.startswith("parse=lib")
+        if impl != m:
+            ck.cov["disagreements_checked"] += 1
+            if ck.cov["disagreements_checked"] <= 3:
+                ck.violation("correspondence-X", "model (coq/Xml.v) and xml_schema/parse.py disagree", {"stream": "X", "xsd": text, "impl": impl[:700], "model": m[:700],
+                             "theorem": "correspondence stream X"}, found_input=False)
 
 
 def oracle(schema, rng, modes=("lo", "hi", "rnd")):
@@ -138,10 +229,12 @@ def run(pid, tier):
     hist = {"accepted_by_xmlschema": 0, "documents": 0, "valid_documents": 0, "with_occurs": 0, "with_attributes": 0, "emptiable_choice": 0}
     sys.setrecursionlimit(2500)
     tried = 0
+    texts = []
     while hist["accepted_by_xmlschema"] < n and tried < n * 6:
         tried += 1
         s = X.gen_schema(rng)
         text = X.to_xsd(s)
+        texts.append(text)
         r = oracle(s, rng)
         if r is None:
             continue
@@ -163,6 +256,7 @@ def run(pid, tier):
                 if got:
                     sig, what, doc = got[0]
             ck.violation(sig + ":" + classify(small), what, {"stream": "X", "xsd": X.to_xsd(small), "ast": small, "document": doc})
+    correspondence(ck, texts, random.Random(ck.seed + 17), hist)
     ck.sample({"xsd": X.to_xsd(X.gen_schema(random.Random(1)))[:600]})
     ck.cov["rule"] = ("random XSDs of the C07 subset (global root element, named/anonymous complexTypes with sequence/choice/all, local elements of built-in or named "
                       "types, minOccurs/maxOccurs in {0,1,n,unbounded}, optional/required/fixed attributes, simpleType restrictions by enumeration or min/maxLength, "
@@ -170,8 +264,8 @@ def run(pid, tier):
                       "distinct = XSD text, non-trivial = text > 200 chars")
     ck.notes["input_distribution"] = hist
     ck.assumptions = ["judge: xmlschema 4.x (XMLSchema10)", "xs:all is read in declaration order (one of the orders it admits)"]
-    return ck.finish(level="other", trusted=["xmlschema as conforming validator"],
-                     explanation="oracle on the implementation with xmlschema as judge; Coq model of xml_schema/parse.py in progress")
+    return ck.finish(level="other", trusted=["xmlschema as conforming validator", "model of xml_schema/parse.py + xpath.py: coq/Xml.v (tied by stream X)"],
+                     explanation="correspondence of the executable Coq model of xml_schema/parse.py (coq/Xml.v) with the implementation on random schemas (graph, entries, labels, documents) plus oracle on the implementation with xmlschema as judge")
 
 
 def classify(s):
